@@ -23,13 +23,14 @@ func plansFor(thorough bool) []Plan {
 		// complete second pass for n <= 3 and a sample; the bare functions and the keyper
 		// handlers get everything
 		{Name: "base-n2", Domain: "base", Flavours: both, NSet: []int{2}, Emit: true, Heavy: true},
-		{Name: "base-n1", Domain: "base", Flavours: both, NSet: []int{1}, Emit: true, Access: true},
-		{Name: "mut-n123", Domain: "mut", Flavours: both, NSet: []int{1, 2, 3}, Emit: true, Access: true},
+		{Name: "base-n1", Domain: "base", Flavours: both, NSet: []int{1}, Emit: true, Access: true, History: true},
+		{Name: "mut-n12", Domain: "mut", Flavours: both, NSet: []int{1, 2}, Emit: true, Access: true, History: true},
+		{Name: "mut-n3", Domain: "mut", Flavours: both, NSet: []int{3}, Emit: true, Access: true, History: thorough},
 		{Name: "mut-n4", Domain: "mut", Flavours: both, NSet: []int{4}, Emit: true, Access: thorough},
 	}
 	if !thorough {
 		plans = append(plans,
-			Plan{Name: "sample-n234-access", Domain: "sample", Flavours: []string{"gnosis"}, NSet: []int{2, 3, 4}, Sample: 2500, Emit: true, Access: true},
+			Plan{Name: "sample-n234-access", Domain: "sample", Flavours: []string{"gnosis"}, NSet: []int{2, 3, 4}, Sample: 2500, Emit: true, Access: true, History: true},
 			Plan{Name: "sample-n34", Domain: "sample", Flavours: both, NSet: []int{3, 4}, Sample: 20000, Emit: true})
 		return plans
 	}
@@ -43,7 +44,7 @@ func plansFor(thorough bool) []Plan {
 		}
 	}
 	plans = append(plans,
-		Plan{Name: "sample-n234-access", Domain: "sample", Flavours: []string{"gnosis"}, NSet: []int{2, 3, 4}, Sample: 40000, Emit: true, Access: true},
+		Plan{Name: "sample-n234-access", Domain: "sample", Flavours: []string{"gnosis"}, NSet: []int{2, 3, 4}, Sample: 40000, Emit: true, Access: true, History: true},
 		Plan{Name: "sample-n34", Domain: "sample", Flavours: both, NSet: []int{3, 4}, Sample: 150000, Emit: true})
 	return plans
 }
@@ -370,7 +371,11 @@ func Check(c *core.Ctx) int {
 	for _, kf := range known {
 		for _, raw := range kf.Witness {
 			var cs Case
-			if err := json.Unmarshal(raw, &cs); err == nil && cs.wellFormed() == nil {
+			err := json.Unmarshal(raw, &cs)
+			if len(cs.Ann) == 0 {
+				cs.Ann = []string{"S"}
+			}
+			if err == nil && cs.wellFormed() == nil {
 				witnessCases = append(witnessCases, cs)
 			} else {
 				c.Logf("known finding %s: unreadable witness", kf.ID)
@@ -594,6 +599,9 @@ func Replay(c *core.Ctx) int {
 	}
 	if cs.Sigs == nil {
 		cs.Sigs = []Sig{}
+	}
+	if len(cs.Ann) == 0 {
+		cs.Ann = []string{"S"}
 	}
 	if err := cs.wellFormed(); err != nil {
 		fmt.Println("INCONCLUSIVE: replay file:", err)
